@@ -20,6 +20,7 @@ RULE = (
     '(identity, half/quarter turns, 120 deg) x translations.  torsion: explicit oracle (atoms '
     'beyond the axis bond = Rodrigues rotation by the measured angle, all others unmoved), also '
     'small steps relative to the present angle, up to 900 A from the origin.'
+    ' fit: arguments handed over as lists, tuples or float arrays must be unchanged by the call and a second placement from the same objects must agree.  torsion: 1-4 successive requests for the same torsion (through 0 / 360 / 180), each must be met.'
 )
 ASSUMPTIONS = [
     "oracle: numpy rotation matrices from unit quaternions, Rodrigues formula, atan2 dihedral",
